@@ -41,7 +41,7 @@ PROPS = {
     "C01": {
         "level": "other",
         "rules": [G.pair_table, G.pairs_unify, G.writers_conform, G.sequences, G.char_codec, P.output_methods, P.input_methods,
-                  B.varints, U.transmutes, R.no_peeking],
+                  B.varints, U.transmutes, R.no_peeking, S.statics_inventory, S.fresh_context],
         "thorough": [TH.feature_matrix_grammar],
         "explanation": "Structural round-trip argument: every built-in type has one writer/reader pair (G1); for each pair every "
                        "writer path unifies with a reader path that reads the same primitives in the same order, honours the "
@@ -130,7 +130,7 @@ PROPS = {
     "C07": {
         "level": "other",
         "rules": [G.pairs_unify, G.sequences, R.no_peeking, R.chunks_skipped, R.pairing, T.constructors, T.sequence_reader,
-                  T.sequence_writer, T.header_reader, G.compressed_frame, D.validate],
+                  T.sequence_writer, T.header_reader, G.compressed_frame, D.validate, P.output_methods, P.input_methods, B.varints],
         "thorough": [TH.generated_corpus, TH.feature_matrix(G.pairs_unify, G.sequences, R.no_peeking, name="feature_matrix_delimiting")],
         "explanation": "Self-delimitation by structure: each reader path consumes exactly the primitives its writer path emitted "
                        "(G2, by induction over nested codecs), sequence readers consume the terminator / all counted items "
@@ -159,7 +159,7 @@ PROPS = {
     "C09": {
         "level": "other",
         "rules": [T.dedup_strings, T.state_tables, T.step_codes, S.constructors_and_writers, B.varints, E.error_sites, G.pairs_unify,
-                  O.header_strings, D.validate],
+                  G.sequences, O.header_strings, D.validate],
         "thorough": [TH.generated_corpus, TH.feature_matrix(O.header_strings, E.error_sites, name="feature_matrix_strings")],
         "explanation": "Writer/reader protocol of the string table (T9: the first occurrence is exactly <String>::serialize, a "
                        "repeat is VarI32(-id), unknown ids are InvalidStringId, the reader registers every first occurrence "
